@@ -237,6 +237,16 @@ place('nullish-rhs-skipped', { thisOk: true }, E => `w.out(w.s1 ?? (${E}));`)
 place('comma', { thisOk: true }, E => `w.out((w.f1(), ${E}));`)
 place('assign-rhs', { thisOk: true }, E => `let r; r = ${E}; w.out(r);`)
 place('assign-computed-lhs', { thisOk: true }, E => `const ob = {}; ob[${E}] = w.s1; w.out(ob);`)
+place('addassign-computed-lhs', { thisOk: true }, E => `const ob = {}; ob[${E}] += w.s1; w.out(ob);`)
+place('addassign-object-lhs', { thisOk: true }, E => `w.id1({ k: ${E} }).p += w.s1;`)
+place('addassign-call-arg-in-lhs', { thisOk: true }, E => `w.fobj1(${E}).p += w.s2;`)
+place('addassign-lhs-and-rhs', { thisOk: true }, E => `const ob = {}; ob[${E}] += w.s1 + w.f1(); w.out(ob);`)
+place('subassign-computed-lhs', { thisOk: true }, E => `const ob = {}; ob[${E}] -= w.i1; w.out(ob);`)
+place('nullish-assign-computed-lhs', { thisOk: true }, E => `const ob = {}; ob[${E}] ??= w.s1; w.out(ob);`)
+place('update-computed-target', { thisOk: true }, E => `const ob = {}; ob[${E}]++; w.out(ob);`)
+place('destructuring-assign-target', { thisOk: true }, E => `const ob = {}; [ob[${E}]] = [w.s1]; w.out(ob);`)
+place('for-of-member-target', { thisOk: true }, E => `const ob = {}; for (ob[${E}] of [w.s1]) w.out(ob);`)
+place('addassign-rhs-of-addassign', { thisOk: true }, E => `let r = w.s1, q = w.s2; r += q += ${E}; w.out(r + q);`)
 place('world-member-assign-rhs', { thisOk: true }, E => `w.o1.p = ${E};`)
 place('tpl-substitution', { thisOk: true }, E => `w.out(\`x\${${E}}y\`);`)
 place('tagged-tpl-arg', { thisOk: true }, E => `w.out(w.tag1\`x\${${E}}y\`);`)
